@@ -88,6 +88,15 @@ def _small_steps_c09(seed):
         for i in range(n // 3, n // 2):
             q[i] = q[n // 3]
     t = [float(i + 1) for i in range(n)]
+    axis = rnd.choice(["hourly", "mixed", "mixed"])
+    if axis == "mixed":
+        # steps from 3.6 ms (the hybrid method's placeholder pulse) to a month: a step's own length is what enters ln((t_n - t_(i-1))/t_s),
+        # however short it is; the loads change at every step so that every short step carries an increment
+        t, acc = [], 0.0
+        for i in range(n):
+            acc += rnd.choice([1e-6, 1e-4, 2e-4, 2.5e-4, 0.01, 0.5, 1.0, 7.0, 700.0])
+            t.append(acc)
+        q = [base * (1.0 + 0.3 * math.sin(1.7 * i)) for i in range(n)]
 
     def g(x):
         return 4.0 + 0.6 * np.asarray(x, dtype=float)
@@ -101,7 +110,7 @@ def _small_steps_c09(seed):
     err = float(np.max(np.abs(np.array(hp) - np.array(ref))))
     scale = float(np.max(np.abs(np.array(ref) - tg))) or 1.0
     if err > 1e-9 * scale:
-        return [f"loads {base} W rising by {rel:g} per step over {n} hours: simulated EFT deviates from the superposition by {err:.3g} K (departures up to {scale:.3g} K)"]
+        return [f"loads {base} W ({axis} axis) rising by {rel:g} per step over {n} steps: simulated EFT deviates from the superposition by {err:.3g} K (departures up to {scale:.3g} K)"]
     return []
 
 
@@ -576,6 +585,12 @@ def _fls_case(case):
                 # is it the grouping tolerance of the default 'equivalent' solver (listed finding F27)? the exact-pairing solver decides
                 g2 = np.array(calculate_g_function(0.5, BHPipeType.SINGLEUTUBE, times, coords, bore, fluid, pipe, grout, soil, boundary="UHTR", solver="similarities").gFunc)
                 out["uhtr_err_similarities"] = float(np.max(np.abs(g2 - ref)))
+                if out["uhtr_err_similarities"] > 1e-4:
+                    # on large regular grids 'similarities' groups nearly equal distances too; 'detailed' pairs every two boreholes (one segment is
+                    # exact under the uniform-heat-rate condition)
+                    g3 = np.array(calculate_g_function(0.5, BHPipeType.SINGLEUTUBE, times, coords, bore, fluid, pipe, grout, soil, boundary="UHTR", solver="detailed",
+                                                       n_segments=1, segments="equal").gFunc)
+                    out["uhtr_err_detailed"] = float(np.max(np.abs(g3 - ref)))
             if len(coords) == 1:
                 gm = np.array(calculate_g_function(0.5, BHPipeType.SINGLEUTUBE, times, coords, bore, fluid, pipe, grout, soil).gFunc)
                 out["mift_rel"] = float(np.max(np.abs(gm - ref) / np.abs(ref)))
@@ -604,7 +619,7 @@ def fls_anchor(chk: Check):
         n += 1
         tol = 1e-6 if r["n"] == 1 else 1e-4
         if r["uhtr_err"] > tol:
-            sim = r.get("uhtr_err_similarities")
+            sim = r.get("uhtr_err_detailed", r.get("uhtr_err_similarities"))
             if sim is not None and sim <= tol and r["uhtr_err"] <= 1e-2 and r["n"] >= 20:
                 chk.violation(f"C11 analytical anchor, {c[0]}: F27 (default solver's grouping tolerance), deviation {r['uhtr_err']:.3g}", {"case": c[0], "result": r}, known_key="F27")
             else:
@@ -691,24 +706,59 @@ def _ginterp_case(item):
     from ghedesigner.gfunction import GFunction  # noqa: PLC0415
 
     n, qs, outs = item["n"], item["qs"], item["outs"]
-    hs = [60.0, 75.0, 97.5, 120.0, 150.0][:n]
     logt = [-8.5, -5.0, -1.0, 2.0]
-    curves = {h: [1.0 + 0.7 * (lt + 9) + 0.013 * h + 0.00004 * h * h for lt in logt] for h in hs}
+
+    def family(hs_, g_):
+        return {h: [1.0 + 0.37 * g_ + 0.7 * (lt + 9) + 0.013 * h + 0.00004 * h * h for lt in logt] for h in hs_}
+
+    def classes(hs_):
+        hq_ = {"min": hs_[0], "max": hs_[-1], "mid_stored": hs_[len(hs_) // 2], "inside": (hs_[0] + hs_[min(1, len(hs_) - 1)]) / 2 + 1.3, "below_snap": hs_[0] - 5e-7,
+               "above_snap": hs_[-1] + 5e-7, "below_tol": hs_[0] - 5e-4, "below_far": hs_[0] - 7.0, "above_far": hs_[-1] + 9.0}
+        near_ = {"min": hs_[0], "max": hs_[-1], "mid_stored": hs_[len(hs_) // 2], "below_snap": hs_[0], "above_snap": hs_[-1]}
+        return hq_, near_
+
+    hs = [60.0, 75.0, 97.5, 120.0, 150.0][:n]
+    curves = family(hs, 0)
     order = list(hs)
     random.Random(n * 7 + len(qs)).shuffle(order)      # stored in an arbitrary order
     gf = GFunction(b=5.0, d=2.0, r_b_values={h: 0.075 for h in order}, g_lts={h: list(curves[h]) for h in order}, log_time=list(logt), bore_locations=[(0, 0), (5, 0)])
-    hq = {"min": hs[0], "max": hs[-1], "mid_stored": hs[len(hs) // 2], "inside": (hs[0] + hs[min(1, len(hs) - 1)]) / 2 + 1.3, "below_snap": hs[0] - 5e-7, "above_snap": hs[-1] + 5e-7,
-          "below_tol": hs[0] - 5e-4, "below_far": hs[0] - 7.0, "above_far": hs[-1] + 9.0}
-    nearest = {"min": hs[0], "max": hs[-1], "mid_stored": hs[len(hs) // 2], "below_snap": hs[0], "above_snap": hs[-1]}
+    hq, nearest = classes(hs)
+    # the exchanger that owns the g-function: BaseGHE.compute_g_functions runs on it for a "recompute" (pygfunction replaced by a table generator)
+    import ghedesigner.ground_heat_exchangers as ghx  # noqa: PLC0415
+
+    owner = SimpleNamespace(gFunction=gf, sim_params=SimpleNamespace(min_height=60.0, max_height=135.0), B_spacing=5.0, bhe_type=None,
+                            bhe=SimpleNamespace(b=SimpleNamespace(r_b=0.075, D=2.0), m_flow_borehole=0.3, fluid=None, pipe=None, grout=None, soil=None))
+    gen = 0
     bad = []
     for i, (q, want) in enumerate(zip(qs, outs)):
+        if q == "recompute":
+            gen += 1
+            owner.sim_params.min_height, owner.sim_params.max_height = [(100.0, 200.0), (40.0, 90.0)][gen - 1]
+
+            def fake(b, h_values, r_b, d, m_flow, bhe_type, log_time, coordinates, *a, _g=gen, **k):
+                fam = family(list(h_values), _g)
+                return GFunction(b=b, d=d, r_b_values={h: r_b for h in h_values}, g_lts={h: list(fam[h]) for h in h_values}, log_time=list(log_time), bore_locations=coordinates)
+
+            real = ghx.calc_g_func_for_multiple_lengths
+            ghx.calc_g_func_for_multiple_lengths = fake
+            try:
+                ghx.BaseGHE.compute_g_functions(owner)
+            finally:
+                ghx.calc_g_func_for_multiple_lengths = real
+            hs = sorted(owner.gFunction.g_lts.keys())
+            if len(hs) != 3:
+                return {"bad": bad, "drift": f"compute_g_functions stored {len(hs)} heights, the model has three"}
+            curves = family(hs, gen)
+            order = list(hs)
+            hq, nearest = classes(hs)
+            continue
         with warnings.catch_warnings(record=True) as w:
             warnings.simplefilter("always")
             try:
-                got_curve = gf.g_function_interpolation(5.0 / hq[q])[0]
+                got_curve = owner.gFunction.g_function_interpolation(5.0 / hq[q])[0]
                 warned = any("Extrapolation" in str(x.message) for x in w)
                 arr = np.array(got_curve, dtype=float)
-                if n == 1:
+                if len(hs) == 1:
                     cls = "stored" if np.max(np.abs(arr - np.array(curves[hs[0]]))) < 1e-9 else "other"
                 elif q in nearest:
                     cls = "stored" if np.max(np.abs(arr - np.array(curves[nearest[q]]))) < 1e-6 else "other"
@@ -720,7 +770,7 @@ def _ginterp_case(item):
                         warnings.simplefilter("ignore")
                         ref_curve = np.array(fresh.g_function_interpolation(5.0 / hq[q])[0], dtype=float)
                     if arr.shape != ref_curve.shape or np.max(np.abs(arr - ref_curve)) > 1e-12:
-                        bad.append(f"{n} stored curves, queries {qs}: the in-range query {i + 1} returns other values than on a fresh object (max difference {float(np.max(np.abs(arr - ref_curve))):.3g})")
+                        bad.append(f"{len(hs)} stored curves, queries {qs}: the in-range query {i + 1} returns other values than on a fresh object (max difference {float(np.max(np.abs(arr - ref_curve))):.3g})")
                 elif q == "below_tol":
                     cls = "extrap" if np.all(np.isfinite(arr)) else "other"       # counted as in range by the code: no warning, but extrapolated values
                 else:
@@ -732,9 +782,9 @@ def _ginterp_case(item):
         if cls != want:
             # the property's own clauses, judged directly
             if q in nearest and cls != "stored":
-                bad.append(f"{n} stored curves, queries {qs}: query {i + 1} at the stored height ({q}) does not return the stored curve ({cls})")
+                bad.append(f"{len(hs)} stored curves, queries {qs}: query {i + 1} at the stored height ({q}) does not return the stored curve ({cls})")
             elif q == "inside" and cls != "interp":
-                bad.append(f"{n} stored curves, queries {qs}: in-range query {i + 1} depends on the earlier queries ({cls})")
+                bad.append(f"{len(hs)} stored curves, queries {qs}: in-range query {i + 1} depends on the earlier queries ({cls})")
             else:
                 return {"bad": bad, "drift": f"{n} curves, queries {qs}: query {i + 1} ({q}) model {want} vs code {cls}"}
     return {"bad": bad, "drift": None}
@@ -743,18 +793,25 @@ def _ginterp_case(item):
 def ginterp(chk: Check):
     t = tier()
     mq = 2 if t == "quick" else 3
-    consts = f"CONSTANTS\n Ns <- c_Ns\n MaxQ = {mq}\n Fixed <- c_Fixed\n"
-    mod = "---- MODULE MC_GInterp ----\nEXTENDS GInterp\nc_Ns == 1..5\nc_Fixed == {\"F28\"}\n====\n"
-    cfg = "INIT Init\nNEXT Next\nCHECK_DEADLOCK FALSE\n" + consts + "INVARIANT StoredHeightReturnsStoredCurve\nINVARIANT InRangeIndependentOfHistory\nINVARIANT OutsideIndependentOfHistory\nINVARIANT Emit\n"
-    res = run_tlc("MC_GInterp", cfg, extra_modules={"MC_GInterp.tla": mod}, workers=1, timeout=1200)
-    chk.add_tlc(res)
-    if res.violated:
-        chk.violation(f"GInterp.tla invariant {res.violated} violated", {"state": res.stdout.split('\nState ')[-1][:800]})
-        return
-    require_tlc_ok(res, "GInterp")
-    items = res.prints
-    if len(items) < 50:
-        raise MachineryError("GInterp generated too few query sequences")
+    invs = ("INVARIANT StoredHeightReturnsStoredCurve\nINVARIANT InRangeIndependentOfHistory\nINVARIANT OutsideIndependentOfHistory\n"
+            "INVARIANT TableOfCurrentFamily\nINVARIANT Emit\n")
+    items = []
+    # (a) query sequences on one family; (b) histories in which BaseGHE.compute_g_functions replaces the family between queries
+    for label, ns_, q_, rec in (("queries", "1..5", mq, "FALSE"), ("recompute", "{2, 3}", mq + 1, "TRUE")):
+        consts = f"CONSTANTS\n Ns <- c_Ns\n MaxQ = {q_}\n Fixed <- c_Fixed\n WithRecompute = {rec}\n"
+        mod = f"---- MODULE MC_GInterp ----\nEXTENDS GInterp\nc_Ns == {ns_}\nc_Fixed == {{\"F28\"}}\n====\n"
+        cfg = "INIT Init\nNEXT Next\nCHECK_DEADLOCK FALSE\n" + consts + invs
+        res = run_tlc("MC_GInterp", cfg, extra_modules={"MC_GInterp.tla": mod}, workers=1, timeout=1200)
+        chk.add_tlc(res)
+        if res.violated:
+            chk.violation(f"GInterp.tla invariant {res.violated} violated", {"state": res.stdout.split('\nState ')[-1][:800]})
+            return
+        require_tlc_ok(res, "GInterp")
+        got = res.prints if rec == "FALSE" else [p for p in res.prints if "recompute" in p["qs"]]
+        if len(got) < 50:
+            raise MachineryError(f"GInterp generated too few {label} sequences")
+        chk.note(f"ginterp_{label}_sequences", len(got))
+        items += got
     drift = 0
     for it, r in zip(items, parallel_map(_ginterp_case, items, chunksize=16)):
         for b in r["bad"][:1]:
